@@ -79,6 +79,34 @@ def gmat(rng, quick):
         Mi[0, 0] += tr - np.trace(Mi)          # trace equal to the integer to the last bit
         yield f"integer-trace[n={n},tr={tr}]", Mi
         yield f"integer-trace-mixed[n={n},tr={tr}]", block_diag_matrix(rng, [Mi, projector(rng, 4, 2), Mi.copy(), np.array([[1.0]]), projector(rng, 3, 1)], zero_rows=1)
+    # look-alike blocks: same diagonal but other off-diagonal entries (signs flipped), and same off-diagonal entries but another diagonal
+    # (mirror image), next to true repeats: a cache of block eigenvectors keyed by part of the block would mix them up
+    for n in (2, 3, 5):
+        v = rng.normal(size=n)
+        v /= np.linalg.norm(v)
+        A = np.outer(v, v)
+        sgn = np.ones(n)
+        sgn[0] = -1.0
+        A_sign = A * np.outer(sgn, sgn)                  # same diagonal, off-diagonal entries of row/column 0 negated
+        A_mirror = A[::-1, ::-1].copy()                  # diagonal reversed; for n = 2 the off-diagonal entries are the same
+        yield f"lookalike-blocks[n={n}]", block_diag_matrix(rng, [A, A_sign, A_mirror, A.copy(), A_sign.copy()], zero_rows=1, permute=False)
+        yield f"lookalike-blocks-permuted[n={n}]", block_diag_matrix(rng, [A, A_sign, A_mirror, A.copy()], zero_rows=0)
+    # blocks that share their FIRST ROW but differ elsewhere (B = U A U^T with U = diag(1, reflection fixing the rest of A's first
+    # column)); no zero rows or columns anywhere in the matrix
+    for n in (3, 4, 6):
+        lam = np.concatenate([np.ones(max(1, n // 2)), rng.uniform(0.0, 0.9, size=n - max(1, n // 2))])
+        A = with_spectrum(rng, lam)
+        a = A[1:, 0]
+        w = rng.normal(size=n - 1)
+        w -= a * (a @ w) / max(a @ a, 1e-300)
+        w /= np.linalg.norm(w)
+        U = np.eye(n)
+        U[1:, 1:] -= 2.0 * np.outer(w, w)
+        B = U @ A @ U.T
+        B = (B + B.T) / 2
+        B[0, :] = A[0, :]                      # equal to the last bit (the reflection leaves it unchanged up to rounding)
+        B[:, 0] = A[:, 0]
+        yield f"same-first-row-blocks[n={n}]", block_diag_matrix(rng, [A, B, A.copy()], zero_rows=0, permute=False)
     # rank-one projectors spread over several sub-blocks of the block-divided solver
     for n in (2, 6, 12) if quick else (2, 6, 12, 40, 90):
         v = rng.normal(size=n)
